@@ -91,6 +91,11 @@ TDetect ==
                \* C03: the reported hierarchy is the first-match deepest path, recomputed here from the
                \* independent detector verdicts (recheck), not from the walk's own consults
                /\ Check("C03", "reported chain is not the first-match path", E.chain = Reverse(NamesOf(rp')))
+               \* C14: on a tree enlarged by Extend the same walk applies; a mismatch that involves an extension
+               \* (a node registered after the dump) is also a violation of "classified under the extension ... never
+               \* under an older sibling ... exactly as before"
+               /\ Check("C14", "classification on the extended tree is not the first-match path",
+                        (\E i \in 1..Len(rp') : rp'[i] > Len(init)) \/ (E.leaf > Len(init)) => E.chain = Reverse(NamesOf(rp')))
                /\ Check("C03", "leaf", E.leaf = leafn)
                \* C03: a format is consulted only after all of its ancestors matched
                /\ Check("C03", "a format was consulted although an ancestor had not matched",
